@@ -56,6 +56,12 @@ func (s *Store[H]) deleteSingle(
 	}
 
 	hash, err := s.heightIndex.HashByHeight(ctx, height, false)
+	if errors.Is(err, datastore.ErrNotFound) {
+		// the header may not be flushed yet and thus be absent from the height index
+		if h := s.pending.GetByHeight(height); !h.IsZero() {
+			hash, err = h.Hash(), nil
+		}
+	}
 	if err != nil {
 		return fmt.Errorf("hash by height %d: %w", height, err)
 	}
